@@ -277,142 +277,171 @@ theorem loaded_update_stream {c : Conf} {st : Table} (hc : c.WF) (hst : st.Inv) 
 /-- the reload of this batch is not performed (ReplaceFiles or Reload fails) -/
 def Faults.noReload (f : Faults) : Bool := f.replace || f.reload
 
-theorem applyOp_oss (o : HOp) (x : Ngx) :
-    applyOp false o x = if o.faults.noReload then (x, true) else ({ x with api := loadOss o.conf }, false) := by
+/-- Plus: the batch goes through the files and a reload (ClusterStateChange, or an EndpointsOnlyChange while the last
+apply is remembered as failed); otherwise through the API alone -/
+def viaReload (lastErr : Bool) (o : HOp) : Bool := decide (o.kind = .cluster) || lastErr
+
+theorem viaReload_false {lastErr : Bool} {o : HOp} (h : viaReload lastErr o = false) :
+    o.kind = .endpoints ∧ lastErr = false := by
+  simp only [viaReload, Bool.or_eq_false_iff, decide_eq_false_iff_not] at h
+  refine ⟨?_, h.2⟩
+  cases hk : o.kind with
+  | cluster => exact absurd hk h.1
+  | endpoints => rfl
+
+theorem applyOp_oss (lastErr : Bool) (o : HOp) (x : Ngx) :
+    applyOp false lastErr o x =
+      if o.faults.noReload then (x, true) else ({ x with api := loadOss o.conf }, false) := by
   unfold applyOp updateNginxConfF Faults.noReload
   cases o.kind <;> cases o.faults.replace <;> cases o.faults.reload <;> simp
 
-theorem applyOp_plus_cluster {o : HOp} (hk : o.kind = .cluster) (x : Ngx) :
-    applyOp true o x = if o.faults.noReload then (x, true)
+theorem applyOp_plus_reload {lastErr : Bool} {o : HOp} (h : viaReload lastErr o = true) (x : Ngx) :
+    applyOp true lastErr o x = if o.faults.noReload then (x, true)
       else updateUpstreamServersF o.faults o.conf { x with api := loadPlus o.conf x.state } := by
   unfold applyOp updateNginxConfF Faults.noReload
-  rw [hk]
-  cases o.faults.replace <;> cases o.faults.reload <;> simp
+  simp only [viaReload, Bool.or_eq_true, decide_eq_true_eq] at h
+  cases hk : o.kind with
+  | cluster => cases o.faults.replace <;> cases o.faults.reload <;> simp
+  | endpoints =>
+    have hl : lastErr = true := by
+      rcases h with h | h
+      · rw [hk] at h; cases h
+      · exact h
+    subst hl
+    cases o.faults.replace <;> cases o.faults.reload <;> simp
 
-theorem applyOp_plus_endpoints {o : HOp} (hk : o.kind = .endpoints) (x : Ngx) :
-    applyOp true o x = updateUpstreamServersF o.faults o.conf x := by
+theorem applyOp_plus_api {lastErr : Bool} {o : HOp} (h : viaReload lastErr o = false) (x : Ngx) :
+    applyOp true lastErr o x = updateUpstreamServersF o.faults o.conf x := by
+  obtain ⟨hk, hl⟩ := viaReload_false h
   unfold applyOp
-  rw [hk]; simp
+  rw [hk, hl]; simp
 
 /-- the upstreams NGINX Plus has when the API update of the batch starts -/
-def apiBeforeUpdate (o : HOp) (x : Ngx) : Api :=
-  match o.kind with
-  | .cluster => loadPlus o.conf x.state
-  | .endpoints => x.api
+def apiBeforeUpdate (lastErr : Bool) (o : HOp) (x : Ngx) : Api :=
+  if viaReload lastErr o then loadPlus o.conf x.state else x.api
 
 /-- Plus, quiet batch: NGINX holds what the fault-free `updateUpstreamServers` of `Model/Resolver.lean` produces -/
-theorem applyOp_plus_quiet {o : HOp} {x : Ngx} (h : (applyOp true o x).2 = false) :
-    (applyOp true o x).1.api = updateUpstreamServers o.conf (apiBeforeUpdate o x) := by
-  cases hk : o.kind with
-  | cluster =>
-    rw [applyOp_plus_cluster hk] at h ⊢
+theorem applyOp_plus_quiet {lastErr : Bool} {o : HOp} {x : Ngx} (h : (applyOp true lastErr o x).2 = false) :
+    (applyOp true lastErr o x).1.api = updateUpstreamServers o.conf (apiBeforeUpdate lastErr o x) := by
+  by_cases hv : viaReload lastErr o = true
+  · rw [applyOp_plus_reload hv] at h ⊢
     by_cases hn : o.faults.noReload = true
     · simp [hn] at h
     · simp only [hn, Bool.false_eq_true, if_false] at h ⊢
-      rw [updateF_quiet h]; simp [apiBeforeUpdate, hk]
-  | endpoints =>
-    rw [applyOp_plus_endpoints hk] at h ⊢
-    rw [updateF_quiet h]; simp [apiBeforeUpdate, hk]
+      rw [updateF_quiet h]; simp [apiBeforeUpdate, hv]
+  · have hv' : viaReload lastErr o = false := by simpa using hv
+    rw [applyOp_plus_api hv'] at h ⊢
+    rw [updateF_quiet h]; simp [apiBeforeUpdate, hv']
 
-theorem applyOp_nofaults (plus : Bool) {o : HOp} (h : o.faults = Faults.none) (x : Ngx) :
-    (applyOp plus o x).2 = false := by
+theorem applyOp_nofaults (plus lastErr : Bool) {o : HOp} (h : o.faults = Faults.none) (x : Ngx) :
+    (applyOp plus lastErr o x).2 = false := by
   cases plus
   · rw [applyOp_oss]; simp [h, Faults.noReload, Faults.none]
-  · cases hk : o.kind with
-    | cluster =>
-      rw [applyOp_plus_cluster hk, h]
+  · by_cases hv : viaReload lastErr o = true
+    · rw [applyOp_plus_reload hv, h]
       simp only [Faults.noReload, Faults.none, Bool.or_self, Bool.false_eq_true, if_false]
       exact updateF_nofaults _ _
-    | endpoints =>
-      rw [applyOp_plus_endpoints hk, h]; exact updateF_nofaults _ _
+    · have hv' : viaReload lastErr o = false := by simpa using hv
+      rw [applyOp_plus_api hv', h]; exact updateF_nofaults _ _
 
-theorem inv_applyOp_plus (o : HOp) {x : Ngx} (hx : x.Inv) : (applyOp true o x).1.Inv := by
-  cases hk : o.kind with
-  | cluster =>
-    rw [applyOp_plus_cluster hk]
+theorem inv_applyOp_plus (lastErr : Bool) (o : HOp) {x : Ngx} (hx : x.Inv) : (applyOp true lastErr o x).1.Inv := by
+  by_cases hv : viaReload lastErr o = true
+  · rw [applyOp_plus_reload hv]
     by_cases hn : o.faults.noReload = true
     · simpa [hn] using hx
     · simp only [hn, Bool.false_eq_true, if_false]
       exact inv_updateF _ _ ⟨inv_loadPlus _ hx.state, hx.state⟩
-  | endpoints =>
-    rw [applyOp_plus_endpoints hk]; exact inv_updateF _ _ hx
+  · have hv' : viaReload lastErr o = false := by simpa using hv
+    rw [applyOp_plus_api hv']; exact inv_updateF _ _ hx
 
 theorem inv_runH_plus : ∀ (ops : List HOp) (s : HState), s.ngx.Inv → (runH true s ops).ngx.Inv
   | [], _, h => h
   | o :: os, s, h => by
     simp only [runH]
-    exact inv_runH_plus os _ (inv_applyOp_plus o h)
+    exact inv_runH_plus os _ (inv_applyOp_plus s.lastErr o h)
 
 /-! ### which upstreams exist in NGINX Plus after a history -/
 
 /-- the batch makes NGINX load a new configuration -/
-def HOp.loads (o : HOp) : Bool := decide (o.kind = .cluster) && !o.faults.noReload
-
-/-- configuration of the last batch of the history whose reload was performed -/
-def lastLoaded : List HOp → Option Conf → Option Conf
-  | [], acc => acc
-  | o :: os, acc => lastLoaded os (if o.loads then some o.conf else acc)
+def loadsNow (lastErr : Bool) (o : HOp) : Bool := viaReload lastErr o && !o.faults.noReload
 
 def keysOf (c : Conf) : List String × List String :=
   (dedup (c.http.map (·.name)), dedup ((c.stream.filter fun u => !u.eps.isEmpty).map (·.name)))
 
-theorem keys_applyOp_plus (o : HOp) (x : Ngx) :
-    ((applyOp true o x).1.api.http.keys, (applyOp true o x).1.api.stream.keys) =
-      if o.loads then keysOf o.conf else (x.api.http.keys, x.api.stream.keys) := by
-  cases hk : o.kind with
-  | cluster =>
-    rw [applyOp_plus_cluster hk]
+theorem keys_applyOp_plus (lastErr : Bool) (o : HOp) (x : Ngx) :
+    ((applyOp true lastErr o x).1.api.http.keys, (applyOp true lastErr o x).1.api.stream.keys) =
+      if loadsNow lastErr o then keysOf o.conf else (x.api.http.keys, x.api.stream.keys) := by
+  by_cases hv : viaReload lastErr o = true
+  · rw [applyOp_plus_reload hv]
     by_cases hn : o.faults.noReload = true
-    · simp [hn, HOp.loads]
-    · simp only [hn, Bool.false_eq_true, if_false, HOp.loads, hk, decide_true, Bool.not_false, Bool.and_self,
-        if_true]
+    · simp [hn, loadsNow]
+    · simp only [hn, Bool.false_eq_true, if_false, loadsNow, hv, Bool.not_false, Bool.and_self, if_true]
       obtain ⟨h1, h2⟩ := keys_updateF o.faults o.conf { x with api := loadPlus o.conf x.state }
       rw [h1, h2]
       simp [keysOf, (keys_loadPlus o.conf x.state).1, (keys_loadPlus o.conf x.state).2]
-  | endpoints =>
-    rw [applyOp_plus_endpoints hk]
+  · have hv' : viaReload lastErr o = false := by simpa using hv
+    rw [applyOp_plus_api hv']
     obtain ⟨h1, h2⟩ := keys_updateF o.faults o.conf x
-    simp [HOp.loads, hk, h1, h2]
+    simp [loadsNow, hv', h1, h2]
 
-theorem lastLoaded_some_ne_none : ∀ (l : List HOp) (c : Conf), lastLoaded l (some c) ≠ none
-  | [], c => by simp [lastLoaded]
-  | x :: r, c => by simp only [lastLoaded]; split <;> exact lastLoaded_some_ne_none r _
+/-- a batch that had to reload and could not records an error -/
+theorem applyOp_plus_noReload_err {lastErr : Bool} {o : HOp} {x : Ngx} (hv : viaReload lastErr o = true)
+    (hn : o.faults.noReload = true) : applyOp true lastErr o x = (x, true) := by
+  rw [applyOp_plus_reload hv]; simp [hn]
 
-/-- NGINX Plus knows exactly the upstreams of the last configuration it loaded -/
-theorem keys_runH_plus : ∀ (ops : List HOp) (s : HState) (acc : Option Conf),
-    (s.ngx.api.http.keys, s.ngx.api.stream.keys) = (match acc with
-      | some c => keysOf c
-      | none => (s.ngx.api.http.keys, s.ngx.api.stream.keys)) →
-    ((runH true s ops).ngx.api.http.keys, (runH true s ops).ngx.api.stream.keys) =
-      match lastLoaded ops acc with
-      | some c => keysOf c
-      | none => (s.ngx.api.http.keys, s.ngx.api.stream.keys)
-  | [], _, acc, h => by
-    simp only [runH, lastLoaded]
-    cases acc <;> simp_all
-  | o :: os, s, acc, h => by
-    simp only [runH, lastLoaded]
-    have hk := keys_applyOp_plus o s.ngx
-    by_cases hl : o.loads = true
-    · simp only [hl, if_true] at hk ⊢
-      have := keys_runH_plus os (stepH true s o).1 (some o.conf) (by simpa [stepH] using hk)
-      rw [this]
-      cases hll : lastLoaded os (some o.conf) with
-      | some c => rfl
-      | none => exact absurd hll (lastLoaded_some_ne_none os o.conf)
-    · simp only [hl, Bool.false_eq_true, if_false] at hk ⊢
-      have hk' : ((stepH true s o).1.ngx.api.http.keys, (stepH true s o).1.ngx.api.stream.keys) =
-          (s.ngx.api.http.keys, s.ngx.api.stream.keys) := by simpa [stepH] using hk
-      have := keys_runH_plus os (stepH true s o).1 acc (by rw [hk']; exact h)
-      rw [this, hk']
+/-- An `EndpointsOnlyChange` keeps the http upstream names of the configuration generated just before it (this is what
+the change processor's classification means; property C01). -/
+def SameHttpNames (c c' : Conf) : Prop := c'.http.map (·.name) = c.http.map (·.name)
 
-/-! ### `run` of the fault-free model and `runH` -/
+def CoherentStep (s : HState) (o : HOp) : Prop :=
+  o.kind = .endpoints → ∃ c, s.latest = some c ∧ SameHttpNames c o.conf
 
-theorem runH_ngx_congr (plus : Bool) : ∀ (ops : List HOp) (s s' : HState), s.ngx = s'.ngx →
-    (runH plus s ops).ngx = (runH plus s' ops).ngx
-  | [], _, _, h => h
-  | o :: os, s, s', h => by
+def Coherent : HState → List HOp → Prop
+  | _, [] => True
+  | s, o :: os => CoherentStep s o ∧ Coherent (stepH true s o).1 os
+
+/-- while the handler remembers a successful apply, NGINX knows every http upstream of the last generated configuration -/
+def NamesKnown (s : HState) : Prop :=
+  s.lastErr = false → ∀ c, s.latest = some c → ∀ u ∈ c.http, u.name ∈ s.ngx.api.http.keys
+
+theorem namesKnown_step {s : HState} {o : HOp} (hn : NamesKnown s) (hc : CoherentStep s o) :
+    NamesKnown (stepH true s o).1 := by
+  intro herr c hlat u hu
+  have hlat' : c = o.conf := by
+    have : some o.conf = some c := hlat
+    cases this; rfl
+  subst hlat'
+  have herr' : (applyOp true s.lastErr o s.ngx).2 = false := herr
+  have hk := keys_applyOp_plus s.lastErr o s.ngx
+  show u.name ∈ (applyOp true s.lastErr o s.ngx).1.api.http.keys
+  by_cases hl : loadsNow s.lastErr o = true
+  · simp only [hl, if_true, keysOf, Prod.mk.injEq] at hk
+    rw [hk.1, mem_dedup]; exact List.mem_map.mpr ⟨u, hu, rfl⟩
+  · simp only [hl, Bool.false_eq_true, if_false, Prod.mk.injEq] at hk
+    rw [hk.1]
+    by_cases hv : viaReload s.lastErr o = true
+    · -- it had to reload and did not: an error was recorded
+      have hnr : o.faults.noReload = true := by
+        simp only [loadsNow, hv, Bool.true_and, Bool.not_eq_true'] at hl
+        cases h : o.faults.noReload
+        · rw [h] at hl; simp at hl
+        · rfl
+      rw [applyOp_plus_noReload_err hv hnr] at herr'
+      cases herr'
+    · have hv' : viaReload s.lastErr o = false := by simpa using hv
+      obtain ⟨hkind, hle⟩ := viaReload_false hv'
+      obtain ⟨c0, hc0, hsame⟩ := hc hkind
+      have hin : u.name ∈ c0.http.map (·.name) := by
+        rw [← hsame]; exact List.mem_map.mpr ⟨u, hu, rfl⟩
+      obtain ⟨u0, hu0, hn0⟩ := List.mem_map.mp hin
+      rw [← hn0]
+      exact hn hle c0 hc0 u0 hu0
+
+theorem namesKnown_runH : ∀ (ops : List HOp) (s : HState), NamesKnown s → Coherent s ops →
+    NamesKnown (runH true s ops)
+  | [], _, h, _ => h
+  | o :: os, s, h, hc => by
     simp only [runH]
-    exact runH_ngx_congr plus os _ _ (by simp [stepH, h])
+    exact namesKnown_runH os _ (namesKnown_step h hc.1) hc.2
 
 end NGF.Resolver
